@@ -58,6 +58,12 @@ def run(eng, rep) -> None:
     for ci_, cattr, stmt, sattr, mf, mst in stale:
         rep.violation("R03.9", ci_.file, ci_.qual + ".__init__", norm(stmt, 70), "'%s' is computed once, at construction, from '%s', but %s changes that list afterwards (%s): sizes derived from the cached value (enum packed size -> C++ carrier and bit width) describe the node as it was, not as it is generated" % (cattr, sattr, mf.qual, norm(mst, 60)))
     rep.ok("R03.9", "-", "-", "values cached on schema nodes at construction", "%d stale candidates" % len(stale))
+    # shared mutable defaults in the C++ plug-in (e.g. one method list under every service)
+    from ..dataflow import shared_default_aliasing
+    for f_ in prog.functions.values():
+        if f_.module.name.startswith("fcp_cpp"):
+            for nm_, made_, st_ in shared_default_aliasing(f_.node):
+                rep.violation("R03.9", f_.file, f_.qual, "%s = %s ... %s" % (nm_, norm(made_, 50), norm(st_, 50)), "every slot of '%s' holds the same object, and it is changed through one slot: every key ends up with the union of all entries (each service's MethodId enum lists the methods of all services: duplicate enumerators / case labels, the header does not compile)" % nm_)
     # ---- R03.1 ---------------------------------------------------------------------
     tests = {}
     for n in walk_local(visit.node):
